@@ -223,8 +223,9 @@ Exps32 == <<0, 60, 120, -70, -140>>      \* the same regimes for float32
 ExpOf32(v) == Pick(Exps32, v)
 
 Incs == <<1, 2, -1, 3, -2, 4, 5, -3, 1, -5>>
-IncX(v) == Pick(Incs, v + Seed)
-IncY(v) == Pick(Incs, 3 * v + 1 + Seed)
+\* every fifth variant has both increments 1 (the unit-stride kernels behind BLAS level 1)
+IncX(v) == IF v % 5 = 4 THEN 1 ELSE Pick(Incs, v + Seed)
+IncY(v) == IF v % 5 = 4 THEN 1 ELSE Pick(Incs, 3 * v + 1 + Seed)
 Guard == 777
 
 (***************************** the cases ************************************)
@@ -274,14 +275,14 @@ RCase(f, n, v) ==
                                      sp == KindX(v)
                                      spec == sp \in {NaN, PInf, NInf}
                                      xx == IF spec THEN Inj(m, PosX(n, v), sp) ELSE m
-                                 IN [Base(f, n, v) EXCEPT !.x = xx, !.e = ExpOf(v), !.tol = n + 4,
+                                 IN [Base(f, n, v) EXCEPT !.x = xx, !.e = ExpOf(v), !.e32 = ExpOf32(v), !.tol = n + 4,
                                        !.s = IF sp = NaN THEN NaN ELSE IF spec THEN PInf ELSE SqRoot(n)]
     \* distance: x = y + m  (everything scaled by 2^e)
     [] f = "Dist2"       -> IF n = 0 THEN [Base(f, n, v) EXCEPT !.s = 0]
                             ELSE IF ~HasSqSol(n) THEN Skip(f, n, v)
                             ELSE LET m == SqVec(n, v)
                                      yy == Vec(n, 5, 2, v)
-                                 IN [Base(f, n, v) EXCEPT !.x = AddV(yy, m), !.y = yy, !.e = ExpOf(v),
+                                 IN [Base(f, n, v) EXCEPT !.x = AddV(yy, m), !.y = yy, !.e = ExpOf(v), !.e32 = ExpOf32(v),
                                        !.tol = n + 6, !.s = SqRoot(n)]
     [] f = "MaxIdx"      -> IF n = 0 THEN Skip(f, n, v) ELSE
                             LET z == IdxData(n, v) IN [Base(f, n, v) EXCEPT !.x = z, !.s = z[MaxIdxS(z)],
@@ -585,7 +586,7 @@ PCase(f, n, v) ==
     \* adds nothing to the sum of squares); NaN if any NaN, else +Inf if any Inf, else r * 2^e
     [] f = "Norm2P"   -> IF ~HasSq0(n - 2) THEN Skip(f, n, v) ELSE
                          [B0 EXCEPT !.x = Ins2(SqVec0(n - 2, v), n, D1(n, v), K1(v), D2(n, v), K2(v)),
-                            !.e = ExpOf(v \div 16 + n), !.tol = n + 4, !.s = NormClass({K1(v), K2(v)}, SqRoot(n - 2))]
+                            !.e = ExpOf(v \div 16 + n), !.e32 = ExpOf32(v \div 16 + n), !.tol = n + 4, !.s = NormClass({K1(v), K2(v)}, SqRoot(n - 2))]
     \* distance: x = y + m on the tuple positions; at the inserted positions either
     \* (x, y) = (K1, 0) and (0, K2), or (K1, K2) at one position and (0, 0) at the other
     [] f = "Dist2P"   -> IF ~HasSq0(n - 2) THEN Skip(f, n, v) ELSE
@@ -595,7 +596,7 @@ PCase(f, n, v) ==
                              xb == 0                               yc == IF same THEN 0 ELSE K2(v)
                          IN [B0 EXCEPT !.x = Ins2(AddV(yb, m), n, D1(n, v), xa, D2(n, v), xb),
                                !.y = Ins2(yb, n, D1(n, v), ya, D2(n, v), yc),
-                               !.e = ExpOf(v \div 16 + n), !.tol = n + 6,
+                               !.e = ExpOf(v \div 16 + n), !.e32 = ExpOf32(v \div 16 + n), !.tol = n + 6,
                                !.s = NormClass({XSub(xa, ya), XSub(xb, yc)}, SqRoot(n - 2))]
     \* ---- strided forms, increments 1..3 (y also negative)
     [] f = "DotIncP"  -> LET ix == IncP(n, v)  iy == IncPY(n, v) IN
